@@ -621,6 +621,7 @@ func C08(c *vk.Ctx) {
 	walks += c08ReadersInside(c)
 	walks += overlappingPasses(c, "C08")
 	walks += staleBackgroundLoad(c, "C08")
+	walks += loadersReplay(c, "C08")
 	c.Set("states", states)
 	c.Set("transitions", trans)
 	c.Set("traces_validated_against_impl", int64(walks))
